@@ -367,6 +367,12 @@ class TaintEngine:
                 # `x.replace(pwd, '***') if pwd else x`: mask_pwd written
                 # out (without a password there is nothing to mask)
                 return frozenset()
+            pol = self._secret_test(f, e.test)
+            if pol is not None:
+                # a decision on the secret the function masks: the arm
+                # taken without a secret has nothing to hide
+                live = e.body if pol else e.orelse
+                return self.labels(f, live, state)
         if isinstance(e, ast.Lambda):
             return frozenset()
         if isinstance(e, (ast.ListComp, ast.SetComp, ast.GeneratorExp,
@@ -401,6 +407,41 @@ class TaintEngine:
             elif isinstance(ch, ast.FormattedValue):
                 out |= self.labels(f, ch.value, state)
         return out
+
+    def mask_secrets(self, f):
+        """Source texts p of the values f masks: `<x>.replace(p, <const>)`
+        or `<x>.replace(p.encode(), <const>)`."""
+        cache = self.__dict__.setdefault('_mask_secrets', {})
+        if f.qname in cache:
+            return cache[f.qname]
+        out = set()
+
+        def enc(x):
+            if isinstance(x, ast.Call) and \
+                    isinstance(x.func, ast.Attribute) and \
+                    x.func.attr == 'encode' and not x.args:
+                return x.func.value
+            return x
+        for x in ast.walk(f.node):
+            if isinstance(x, ast.Call) and \
+                    isinstance(x.func, ast.Attribute) and \
+                    x.func.attr == 'replace' and len(x.args) == 2 and \
+                    isinstance(enc(x.args[1]), ast.Constant) and \
+                    isinstance(enc(x.args[0]), (ast.Name, ast.Attribute)):
+                out.add(src(enc(x.args[0])))
+        cache[f.qname] = out
+        return out
+
+    def _secret_test(self, f, test):
+        """True / False when `test` is `p` / `not p` for a value p that f
+        masks (the polarity under which there is a secret); else None."""
+        pol = True
+        while isinstance(test, ast.UnaryOp) and isinstance(test.op, ast.Not):
+            test, pol = test.operand, not pol
+        if isinstance(test, (ast.Name, ast.Attribute)) and \
+                src(test) in self.mask_secrets(f):
+            return pol
+        return None
 
     def masked_param(self, f):
         """The masking idiom written as a helper, mask(text, secret):
@@ -643,7 +684,15 @@ class TaintEngine:
             for k, v in out.items():
                 if v:
                     union[k] = union.get(k, frozenset()) | v
+            dead = set()
+            if n.kind == 'test':
+                pol = self._secret_test(f, n.ast)
+                if pol is not None:
+                    # without a secret nothing flows that has to be hidden
+                    dead = set(c.branch(n, not pol))
             for s in c.succ[i]:
+                if s in dead and s not in c.branch(n, pol):
+                    continue
                 old = states.get(s)
                 if old is None:
                     states[s] = dict(out)
